@@ -87,13 +87,14 @@ CHECKS["C02"] = dict(
 CHECKS["C10"] = dict(
     level="model_checking", engine="E-HIST",
     technique="explicit-state model checking of the implementation: per-call byte counts summed along every explored history and compared with the real output size",
-    level_text="(a) every encoder call in the E-ENC exploration returns the length of the bytes it appended; (b) along every exporter history the sum of returned counts since an output was opened equals that output's uncompressed size (+1 for the break written by destruction).",
+    level_text="(a) every encoder call in the E-ENC exploration returns the length of the bytes it appended; (b) along every exporter history the sum of returned counts since an output was opened equals that output's uncompressed size (+1 for the break written by destruction); (c) every serialisation call (Timestamp, ClassType, QueryResponseSignature, ..., BlockParameters, FilePreamble ::write) returns the measured growth of the output and appends exactly one CBOR item, for every explored subset of optional members incl. present-but-empty nested structures.",
     level_note=_HIST_NOTE,
     stages=[dict(harness="enc", variant="asan", prefix="enc_"),
             dict(harness="hist", variant="plain", args=["--mode", "counts"]),
             dict(harness="blk", variant="asan", args=["--mode", "direct"], prefix="direct_"),
-            dict(harness="val", variant="asan", args=["--mode", "align"], prefix="align_")],
-    rule="E-ENC traces (see C06) + stateless DFS over 10 exporter operations x {memory, gzip, descriptor, named file} sinks",
+            dict(harness="val", variant="asan", args=["--mode", "align"], prefix="align_"),
+            dict(harness="ser", variant="asan", prefix="ser_")],
+    rule="E-ENC traces (see C06) + stateless DFS over 10 exporter operations x {memory, gzip, descriptor, named file} sinks x 3 parameter configurations (collection parameters full / present-but-empty / one member) + E-SER: each of the 20 serialisable structures x every subset of its optional members (<= 12 selector bits: all subsets; 16-17: empty, full, singles, pairs, complements; thorough: all 2^17) x {small, widest} values x fill levels of the encoder buffer, returned value vs. measured growth of the output",
     bound_quick="exporter histories of length <= 3; encoder: as C06 quick", bound_thorough="exporter histories of length <= 4 (+xz, gzip file); encoder: as C06 thorough",
     assumptions=[],
 )
@@ -212,10 +213,10 @@ CHECKS["C14"] = dict(
     level="model_checking", engine="E-COMP",
     technique="explicit-state enumeration on the implementation: every call sequence over {write(size, content class), rotate} up to a length on the real gzip/xz writers, outputs decompressed by zlib/liblzma decoders (and Python's gzip/lzma in the thorough tier) and compared with the bytes written",
     level_text="All sequences up to the bound over writes of sizes {0,1,2,2047,2048,2049,65536,1 MiB} x content classes {zeros, text-like, incompressible, gzip-looking} and rotations, for GZIP and XZ, to named files and descriptors, plus single writes of 5..48 MiB (8 MiB in the quick tier) alone and after a rotation: every output file must carry the .gz/.xz suffix (named), have no .part left, be exactly one complete stream (decoder reaches stream end with no input left) and decompress to exactly the bytes written since the previous rotation. Runs on an uninstrumented build with the default 8 MiB stack in forked workers, so a crash of the writer is attributed to its sequence.",
-    level_note="Trusted: zlib inflate / liblzma stream decoder as decompressors (Python's gzip and lzma modules wrap the same C libraries; they are run on a sample in the thorough tier as a cross-check of the harness' own decoder loop). The end-to-end path through the exporter is covered by C13's gzip/xz profiles.",
-    stages=[dict(harness="comp", variant="plain"),
+    level_note="Trusted: zlib inflate / liblzma stream decoder as decompressors (Python's gzip and lzma modules wrap the same C libraries; they are run on a sample in the thorough tier as a cross-check of the harness' own decoder loop). The end-to-end path through the exporter: 25000 / 60000-record exports (3 content kinds) compared with the uncompressed export of the same records, plus C13's gzip/xz profiles. The harness defines deflate and lzma_code itself as passive observers (the real functions are called unchanged) that classify every codec pass; the stage is rejected as vacuous unless passes that consumed only part of a chunk and finishes that needed several passes were reached.",
+    stages=[dict(harness="comp", variant="plain", require=["gz_partial_input_passes", "gz_finish_multipass", "xz_finish_multipass", "export_runs"]),
             dict(kind="py", harness="decomp", tiers=("thorough",), prefix="py_")],
-    rule="stateless DFS over the (size, class)/rotate alphabet for 2 formats x 2 sink kinds; non-trivial = at least one step; all distinct",
+    rule="stateless DFS over the (size, class)/rotate alphabet for 2 formats x 2 sink kinds; chunking sweep: 600 KiB (thorough: 4 MiB for gzip) written in chunks of one size, for text-like / incompressible / mixed-entropy data; end-to-end exports; non-trivial = at least one step; all distinct",
     bound_quick="sequences of length <= 2 (29 steps alphabet) + 8 MiB single writes", bound_thorough="length <= 3 + single writes of 5, 6, 8, 16, 48 MiB",
     assumptions=["default RLIMIT_STACK (8 MiB)"],
 )
@@ -226,7 +227,7 @@ CHECKS["C15"] = dict(
     technique="exhaustive crash-point enumeration on the implementation: the process is killed immediately before every output-related system call (write, writev, rename) of each scenario, with the calls interposed in the harness executable",
     level_text="18 scenarios ({plain, gzip, xz} x {single output closed by destruction; three rotations with and without export; rotation onto a name that already holds an older complete file; rotation back onto the first name; destruction with buffered but unwritten data; destruction with nothing written}), records of 3 KB so that blocks span several encoder flushes and the ofstream buffer spills mid-block. A trace run records the K output calls; for every k in 1..K a forked child runs the scenario and _exits immediately before its k-th call; afterwards every directory entry not ending in .part must be byte-identical to one of the complete versions that name legitimately holds (the pre-existing file or a closed output of the uninterrupted run, each validated as a complete stream and valid C-DNS file). The trace run also checks that every data write targets a *.part path.",
     level_note="Crash model = process death between system calls (the property's model); no power loss / page cache reasoning. Trusted: path of a descriptor read from /proc/self/fd at call time; write/writev/rename are the only output calls libstdc++ and the library issue (verified by the trace containing all bytes).",
-    stages=[dict(harness="fault", variant="plain", args=["--mode", "crash"], link=["-rdynamic"])],
+    stages=[dict(harness="fault", variant="plain", args=["--mode", "crash"], link=["-rdynamic"], require=["gz_finish_multipass", "xz_finish_multipass"])],
     rule="(scenario, k) pairs enumerated exhaustively; a run is non-trivial when the child really stopped at call k (exit code 77), otherwise it is reported as a harness error",
     bound_quick="all 18 scenarios, every k", bound_thorough="same (the space is small and fully covered in the quick tier)",
     assumptions=["tmpfs scratch directory"],
